@@ -123,3 +123,231 @@ class ValidateAa55:
                 out.append((fr[:k], rt))
             out.append((fr[:-1] + bytes([fr[-1] ^ 1]), rt))
         return out
+
+
+# ---- AA55 request constructors (C03) ---------------------------------------------------------------------------------
+from pyvc.api import fresh_instance
+from goodwe.protocol import (Aa55ProtocolCommand, Aa55ReadCommand, Aa55WriteCommand, Aa55WriteMultiCommand,
+                             ProtocolCommand, ModbusRtuProtocolCommand, ModbusTcpProtocolCommand,
+                             ModbusRtuReadCommand, ModbusRtuWriteCommand, ModbusRtuWriteMultiCommand,
+                             ModbusTcpReadCommand, ModbusTcpWriteCommand, ModbusTcpWriteMultiCommand)
+
+
+def aa55_request_ok(r):
+    """canonical AA55 request: C07F header, length byte = payload bytes, additive checksum over all that precedes"""
+    n = len(r)
+    return (n >= 9 and r[0] == 0xAA and r[1] == 0x55 and r[2] == 0xC0 and r[3] == 0x7F
+            and r[6] == n - 9 and be16(r[n - 2:n]) == SUM(r[0:n - 2]))
+
+
+@contract("goodwe.protocol.Aa55ReadCommand.__init__")
+class Aa55ReadInit:
+    props = ("C03",)
+    args = {"self": fresh_instance(Aa55ReadCommand), "offset": "int", "count": "int"}
+    returns = "none"
+    raises_only = ()
+
+    def requires(offset, count):
+        return 0 <= offset <= 0xFFFF and 1 <= count <= 125
+
+    def ensures_C03_frame(self, offset, count):
+        r = self.request
+        return (aa55_request_ok(r) and len(r) == 12 and r[4] == 0x01 and r[5] == 0x1A
+                and be16(r[7:9]) == offset and r[9] == count
+                and self.first_address == offset and self.value == count)
+
+
+@contract("goodwe.protocol.Aa55WriteCommand.__init__")
+class Aa55WriteInit:
+    props = ("C03",)
+    args = {"self": fresh_instance(Aa55WriteCommand), "register": "int", "value": "int"}
+    returns = "none"
+    raises_only = ()
+
+    def requires(register, value):
+        return 0 <= register <= 0xFFFF and -32768 <= value <= 32767
+
+    def ensures_C03_frame(self, register, value):
+        r = self.request
+        return (aa55_request_ok(r) and len(r) == 14 and r[4] == 0x02 and r[5] == 0x39
+                and be16(r[7:9]) == register and r[9] == 1 and be16(r[10:12]) == value % 65536
+                and self.first_address == register)
+
+
+@contract("goodwe.protocol.Aa55WriteMultiCommand.__init__")
+class Aa55WriteMultiInit:
+    props = ("C03",)
+    args = {"self": fresh_instance(Aa55WriteMultiCommand), "offset": "int", "values": "bytes"}
+    returns = "none"
+    raises_only = ()
+
+    def requires(offset, values):
+        return 0 <= offset <= 0xFFFF and len(values) == 8
+
+    def ensures_C03_frame(self, offset, values):
+        r = self.request
+        return (aa55_request_ok(r) and len(r) == 20 and r[4] == 0x02 and r[5] == 0x39
+                and be16(r[7:9]) == offset and r[9] == len(values) and same_bytes(r[10:18], values)
+                and self.first_address == offset)
+
+
+# ---- Modbus command constructors: the request is the encoder's frame, the bookkeeping fields are the arguments ---------
+def _modbus_init(cls, write, multi):
+    class K:
+        props = ("C03",)
+        returns = "none"
+        raises_only = ()
+    return K
+
+
+@contract("goodwe.protocol.ModbusRtuReadCommand.__init__")
+class RtuReadInit:
+    props = ("C03",)
+    args = {"self": fresh_instance(ModbusRtuReadCommand), "comm_addr": "int", "offset": "int", "count": "int"}
+    returns = "none"
+    raises_only = ()
+
+    def requires(comm_addr, offset, count):
+        return 0 <= comm_addr <= 255 and 0 <= offset <= 0xFFFF and 1 <= count <= 125
+
+    def ensures_C03_frame(self, comm_addr, offset, count):
+        r = self.request
+        return (len(r) == 8 and r[0] == comm_addr and r[1] == 3 and be16(r[2:4]) == offset and be16(r[4:6]) == count
+                and r[6] + 256 * r[7] == CRC16(r[0:6]) and self.first_address == offset and self.value == count)
+
+
+@contract("goodwe.protocol.ModbusRtuWriteCommand.__init__")
+class RtuWriteInit:
+    props = ("C03",)
+    args = {"self": fresh_instance(ModbusRtuWriteCommand), "comm_addr": "int", "register": "int", "value": "int"}
+    returns = "none"
+    raises_only = ()
+
+    def requires(comm_addr, register, value):
+        return 0 <= comm_addr <= 255 and 0 <= register <= 0xFFFF and -32768 <= value <= 32767
+
+    def ensures_C03_frame(self, comm_addr, register, value):
+        r = self.request
+        return (len(r) == 8 and r[0] == comm_addr and r[1] == 6 and be16(r[2:4]) == register
+                and be16(r[4:6]) == value % 65536 and r[6] + 256 * r[7] == CRC16(r[0:6])
+                and self.first_address == register and self.value == value)
+
+
+@contract("goodwe.protocol.ModbusRtuWriteMultiCommand.__init__")
+class RtuWriteMultiInit:
+    props = ("C03",)
+    args = {"self": fresh_instance(ModbusRtuWriteMultiCommand), "comm_addr": "int", "offset": "int",
+            "values": "bytes"}
+    returns = "none"
+    raises_only = ()
+
+    def requires(comm_addr, offset, values):
+        return (0 <= comm_addr <= 255 and 0 <= offset <= 0xFFFF and 2 <= len(values) <= 246
+                and len(values) % 2 == 0)
+
+    def ensures_C03_frame(self, comm_addr, offset, values):
+        r = self.request
+        n = len(values)
+        return (len(r) == 9 + n and r[0] == comm_addr and r[1] == 16 and be16(r[2:4]) == offset
+                and be16(r[4:6]) * 2 == n and r[6] == n and same_bytes(r[7:7 + n], values)
+                and r[7 + n] + 256 * r[8 + n] == CRC16(r[0:7 + n])
+                and self.first_address == offset and self.value * 2 == n)
+
+
+@contract("goodwe.protocol.ModbusTcpReadCommand.__init__")
+class TcpReadInit:
+    props = ("C03",)
+    args = {"self": fresh_instance(ModbusTcpReadCommand), "comm_addr": "int", "offset": "int", "count": "int"}
+    returns = "none"
+    raises_only = ()
+
+    def requires(comm_addr, offset, count):
+        return 0 <= comm_addr <= 255 and 0 <= offset <= 0xFFFF and 1 <= count <= 125
+
+    def ensures_C03_frame(self, comm_addr, offset, count):
+        r = self.request
+        return (len(r) == 12 and be16(r[2:4]) == 0 and be16(r[4:6]) == 6 and r[6] == comm_addr and r[7] == 3
+                and be16(r[8:10]) == offset and be16(r[10:12]) == count
+                and self.first_address == offset and self.value == count)
+
+
+@contract("goodwe.protocol.ModbusTcpWriteCommand.__init__")
+class TcpWriteInit:
+    props = ("C03",)
+    args = {"self": fresh_instance(ModbusTcpWriteCommand), "comm_addr": "int", "register": "int", "value": "int"}
+    returns = "none"
+    raises_only = ()
+
+    def requires(comm_addr, register, value):
+        return 0 <= comm_addr <= 255 and 0 <= register <= 0xFFFF and -32768 <= value <= 32767
+
+    def ensures_C03_frame(self, comm_addr, register, value):
+        r = self.request
+        return (len(r) == 12 and be16(r[2:4]) == 0 and be16(r[4:6]) == 6 and r[6] == comm_addr and r[7] == 6
+                and be16(r[8:10]) == register and be16(r[10:12]) == value % 65536
+                and self.first_address == register and self.value == value)
+
+
+@contract("goodwe.protocol.ModbusTcpWriteMultiCommand.__init__")
+class TcpWriteMultiInit:
+    props = ("C03",)
+    args = {"self": fresh_instance(ModbusTcpWriteMultiCommand), "comm_addr": "int", "offset": "int",
+            "values": "bytes"}
+    returns = "none"
+    raises_only = ()
+
+    def requires(comm_addr, offset, values):
+        return (0 <= comm_addr <= 255 and 0 <= offset <= 0xFFFF and 2 <= len(values) <= 246
+                and len(values) % 2 == 0)
+
+    def ensures_C03_frame(self, comm_addr, offset, values):
+        r = self.request
+        n = len(values)
+        return (len(r) == 13 + n and be16(r[2:4]) == 0 and be16(r[4:6]) == len(r) - 6 and r[6] == comm_addr
+                and r[7] == 16 and be16(r[8:10]) == offset and be16(r[10:12]) * 2 == n and r[12] == n
+                and same_bytes(r[13:13 + n], values) and self.first_address == offset and self.value * 2 == n)
+
+
+# ---- Modbus/TCP transaction identifier (C03, histories) -----------------------------------------------------------------
+@contract("goodwe.protocol._next_tx")
+class NextTx:
+    """One step of the counter.  The module invariant 0 <= tx <= 0xFFFE is established by the initial value 0 (ground
+    fact below) and preserved by this step, so histories of any length follow by induction: every transmission
+    gets an id in 1..0xFFFE that differs from the previous one."""
+    props = ("C03",)
+    args = {}
+    globals_in = {"goodwe.protocol._modbus_tcp_tx": "int"}
+    returns = "bytes"
+    raises_only = ()
+
+    def requires(old__modbus_tcp_tx):
+        return 0 <= old__modbus_tcp_tx <= 0xFFFE
+
+    def ensures_C03_tx_nonzero_and_changes(old__modbus_tcp_tx, new__modbus_tcp_tx, result):
+        return (1 <= new__modbus_tcp_tx <= 0xFFFE and new__modbus_tcp_tx != old__modbus_tcp_tx
+                and len(result) == 2 and be16(result) == new__modbus_tcp_tx)
+
+
+@contract("goodwe.protocol.ModbusTcpProtocolCommand.request_bytes")
+class TcpRequestBytes:
+    props = ("C03",)
+    args = {"self": lambda ex: _tcp_command(ex)}
+    globals_in = {"goodwe.protocol._modbus_tcp_tx": "int"}
+    returns = "bytes"
+    raises_only = ()
+
+    def requires(self, old__modbus_tcp_tx):
+        return 0 <= old__modbus_tcp_tx <= 0xFFFE and len(self.request) >= 12
+
+    def ensures_C03_tx_applied_rest_unchanged(self, old__modbus_tcp_tx, new__modbus_tcp_tx, result):
+        return (1 <= new__modbus_tcp_tx <= 0xFFFE and new__modbus_tcp_tx != old__modbus_tcp_tx
+                and be16(result[0:2]) == new__modbus_tcp_tx and len(result) == len(self.old_request)
+                and same_bytes(result[2:], self.old_request[2:]) and same_bytes(self.request, result))
+
+
+def _tcp_command(ex):
+    from pyvc.sbytes import SBytes
+    cmd = ex.new_object(ModbusTcpProtocolCommand.__new__(ModbusTcpProtocolCommand))
+    cmd.request = SBytes.fresh(ex, "request")
+    cmd.old_request = cmd.request
+    return cmd
